@@ -1,6 +1,7 @@
 (* C15 -- Results are independent of the units of the axis and linear in the data. *)
 From Coq Require Import List Bool Arith ZArith QArith Qcanon.
-From NI Require Import Num Base Lookup Linear Interp Spline SplineAlgebra LinearExact Units.
+From NI Require Import Num Base Lookup Linear Interp Spline Tri TriProofs SplineAlgebra LookupProofs LinearProofs LinearExact
+  SplineProofs Units UnitsList.
 Import ListNotations.
 Local Open Scope Qc_scope.
 
@@ -80,6 +81,138 @@ Theorem C15_spline_piece_scale_data : forall c y yr k kr h u : Qc, h <> 0 ->
   c * piece y k (ca k h (yr - y)) (cb kr h (yr - y)) h u.
 Proof. exact piece_scale_data. Qed.
 Print Assumptions C15_spline_piece_scale_data.
-(* Partial: the list-level statement "build on transformed inputs = transformed build" for the
-   spline (all boundary rows + uniqueness) and the bit-for-bit clause for powers of two are
-   validated by the metamorphic runs (exact at rationals, bitwise at f64), not proved. *)
+
+(* ---------------- whole interpolators (every lane, every query, errors included) ---------------- *)
+
+(* the segment lookup does not depend on the unit: any strictly increasing map of axis and query *)
+Theorem C15_lookup_unit_free :
+  forall g : Qc -> Qc, (forall a b, (this a < this b)%Q <-> (this (g a) < this (g b))%Q) ->
+  forall (xs : list Qc) (x : Qc),
+    StrictIncQc xs -> (2 <= length xs)%nat -> (Z.of_nat (length xs) <= two64)%Z ->
+    lower_index NumQc (map g xs) (g x) = lower_index NumQc xs x.
+Proof. exact lower_index_mono. Qed.
+Print Assumptions C15_lookup_unit_free.
+
+Theorem C15_linear_axis_units :
+  forall (ax : list Qc) (data : list (list Qc)),
+    StrictIncQc ax -> (2 <= length ax)%nat -> (Z.of_nat (length ax) <= two64)%Z -> length data = length ax ->
+    forall (ext : bool) (c s x : Qc), 0 < c ->
+      linear_interp NumQc ext (map (aff c s) ax) data (aff c s x) = linear_interp NumQc ext ax data x.
+Proof. exact linear_axis_units. Qed.
+Print Assumptions C15_linear_axis_units.
+
+Theorem C15_linear_scale_data_list :
+  forall (ax : list Qc) (data : list (list Qc)),
+    StrictIncQc ax -> (2 <= length ax)%nat -> (Z.of_nat (length ax) <= two64)%Z -> length data = length ax ->
+    forall (ext : bool) (c x : Qc),
+      linear_interp NumQc ext ax (map (map (Qcmult c)) data) x =
+      match linear_interp NumQc ext ax data x with Ok v => Ok (map (Qcmult c) v) | e => e end.
+Proof. exact linear_scale_data. Qed.
+Print Assumptions C15_linear_scale_data_list.
+
+Theorem C15_linear_additive_list :
+  forall (ax : list Qc) (data : list (list Qc)),
+    StrictIncQc ax -> (2 <= length ax)%nat -> (Z.of_nat (length ax) <= two64)%Z -> length data = length ax ->
+    forall (ext : bool) (data2 : list (list Qc)) (x : Qc) (v1 v2 : list Qc),
+      length data2 = length ax ->
+      (forall i, (i < length ax)%nat -> length (nth i data []) = length (nth i data2 [])) ->
+      linear_interp NumQc ext ax data x = Ok v1 -> linear_interp NumQc ext ax data2 x = Ok v2 ->
+      linear_interp NumQc ext ax (add_data data data2) x = Ok (map2 Qcplus v1 v2).
+Proof. exact linear_additive. Qed.
+Print Assumptions C15_linear_additive_list.
+
+(* CubicSpline, any pair of end conditions: in the new units the slopes are k/c (axis x -> c*x+s, the
+   derivative values of FirstDeriv / SecondDeriv converted: v/c resp. v/c^2) resp. c*k (data times c,
+   derivative values times c) resp. k1 + k2 (sum of data sets) -- by uniqueness of the solution *)
+Theorem C15_spline_slopes_axis_units :
+  forall (xs : list Qc) (data : list (list Qc)) (L : nat) (c s : Qc), 0 < c ->
+    (forall i, (i < length data)%nat -> length (nth i data []) = L) ->
+    StrictIncQc xs -> length xs = length data -> (3 <= length data)%nat -> (0 < L)%nat ->
+    forall j, (j < L)%nat -> forall (l r : single Qc) (K K' : list (list Qc)),
+      solve_for_k NumQc xs data (IMixed l r) = Ok K ->
+      solve_for_k NumQc (map (aff c s) xs) data
+        (IMixed (conv_single (fun v => v / c) (fun v => v / (c * c)) l)
+                (conv_single (fun v => v / c) (fun v => v / (c * c)) r)) = Ok K' ->
+      lane_vec 0 j K' = map (fun k => k / c) (lane_vec 0 j K).
+Proof. exact spline_slopes_axis_units. Qed.
+Print Assumptions C15_spline_slopes_axis_units.
+
+Theorem C15_spline_slopes_scale_data :
+  forall (xs : list Qc) (data : list (list Qc)) (L : nat) (c : Qc),
+    (forall i, (i < length data)%nat -> length (nth i data []) = L) ->
+    StrictIncQc xs -> length xs = length data -> (3 <= length data)%nat -> (0 < L)%nat ->
+    forall j, (j < L)%nat -> forall (l r : single Qc) (K K' : list (list Qc)),
+      solve_for_k NumQc xs data (IMixed l r) = Ok K ->
+      solve_for_k NumQc xs (map (map (Qcmult c)) data)
+        (IMixed (conv_single (Qcmult c) (Qcmult c) l) (conv_single (Qcmult c) (Qcmult c) r)) = Ok K' ->
+      lane_vec 0 j K' = map (Qcmult c) (lane_vec 0 j K).
+Proof. exact spline_slopes_scale_data. Qed.
+Print Assumptions C15_spline_slopes_scale_data.
+
+(* ... and for the whole-data-set boundaries (NotAKnot / Natural / Clamped) the interpolators commute
+   with the change of units, for every query (inside the range, or anywhere with extrapolation) *)
+Theorem C15_spline_whole_axis_units :
+  forall (xs : list Qc) (data : list (list Qc)) (L : nat) (c s : Qc), 0 < c ->
+    (forall i, (i < length data)%nat -> length (nth i data []) = L) ->
+    StrictIncQc xs -> length xs = length data -> (3 <= length data)%nat ->
+    (Z.of_nat (length data) <= two64)%Z -> (0 < L)%nat ->
+    forall (b : bc Qc) (l r : single Qc) (ext : bool) (trail : list nat) (sp sp' : spline_strat) (x : Qc) (v : list Qc),
+      whole_lr b = Some (l, r) ->
+      spline_build NumQc b ext xs data trail = Ok sp ->
+      spline_build NumQc b ext (map (aff c s) xs) data trail = Ok sp' ->
+      (ext = false -> in_closed_range NumQc 0 xs x = true) ->
+      spline_interp NumQc sp xs data x = Ok v ->
+      spline_interp NumQc sp' (map (aff c s) xs) data (aff c s x) = Ok v.
+Proof. exact spline_whole_axis_units. Qed.
+Print Assumptions C15_spline_whole_axis_units.
+
+Theorem C15_spline_whole_scale_data :
+  forall (xs : list Qc) (data : list (list Qc)) (L : nat) (c : Qc),
+    (forall i, (i < length data)%nat -> length (nth i data []) = L) ->
+    StrictIncQc xs -> length xs = length data -> (3 <= length data)%nat ->
+    (Z.of_nat (length data) <= two64)%Z -> (0 < L)%nat ->
+    forall (b : bc Qc) (l r : single Qc) (ext : bool) (trail : list nat) (sp sp' : spline_strat) (x : Qc) (v : list Qc),
+      whole_lr b = Some (l, r) ->
+      spline_build NumQc b ext xs data trail = Ok sp ->
+      spline_build NumQc b ext xs (map (map (Qcmult c)) data) trail = Ok sp' ->
+      (ext = false -> in_closed_range NumQc 0 xs x = true) ->
+      spline_interp NumQc sp xs data x = Ok v ->
+      spline_interp NumQc sp' xs (map (map (Qcmult c)) data) x = Ok (map (Qcmult c) v).
+Proof. exact spline_whole_scale_data. Qed.
+Print Assumptions C15_spline_whole_scale_data.
+
+Theorem C15_spline_whole_additive :
+  forall (xs : list Qc) (d1 d2 : list (list Qc)) (L : nat),
+    (forall i, (i < length d1)%nat -> length (nth i d1 []) = L) ->
+    (forall i, (i < length d2)%nat -> length (nth i d2 []) = L) ->
+    StrictIncQc xs -> length xs = length d1 -> length xs = length d2 -> (3 <= length d1)%nat ->
+    (Z.of_nat (length d1) <= two64)%Z -> (0 < L)%nat ->
+    forall (b : bc Qc) (l r : single Qc) (ext : bool) (trail : list nat) (sp1 sp2 sp12 : spline_strat)
+           (x : Qc) (v1 v2 : list Qc),
+      whole_lr b = Some (l, r) ->
+      spline_build NumQc b ext xs d1 trail = Ok sp1 ->
+      spline_build NumQc b ext xs d2 trail = Ok sp2 ->
+      spline_build NumQc b ext xs (add_data d1 d2) trail = Ok sp12 ->
+      (ext = false -> in_closed_range NumQc 0 xs x = true) ->
+      spline_interp NumQc sp1 xs d1 x = Ok v1 ->
+      spline_interp NumQc sp2 xs d2 x = Ok v2 ->
+      spline_interp NumQc sp12 xs (add_data d1 d2) x = Ok (map2 Qcplus v1 v2).
+Proof. exact spline_whole_additive. Qed.
+Print Assumptions C15_spline_whole_additive.
+
+(* Partial: the whole-interpolator statements for Bilinear (scalar statements above), for per-lane /
+   Periodic spline boundaries (slope statements above cover any Mixed pair) and the bit-for-bit clause
+   for powers of two are validated by the metamorphic runs (exact at rationals, bitwise at f64). *)
+
+Example C15_ex : (* axis in other units: x -> 2x + 3 *)
+  let xs := [qc 0 1; qc 1 1; qc 3 1; qc 4 1] in
+  let data := [[qc 0 1]; [qc 1 1]; [qc 0 1]; [qc 2 1]] in
+  match spline_build NumQc BNatural false xs data [], spline_build NumQc BNatural false (map (aff (qc 2 1) (qc 3 1)) xs) data [] with
+  | Ok sp, Ok sp' =>
+      match spline_interp NumQc sp xs data (qc 5 2), spline_interp NumQc sp' (map (aff (qc 2 1) (qc 3 1)) xs) data (qc 8 1) with
+      | Ok [v], Ok [w] => qc_eqb v w
+      | _, _ => false
+      end
+  | _, _ => false
+  end = true.
+Proof. vm_compute. reflexivity. Qed.
